@@ -125,3 +125,18 @@ Fixpoint requested (es : list cev) (i : nat) : option Z :=
   | Call x :: es' => match i with O => Some x | S j => requested es' j end
   | _ :: es' => requested es' i
   end.
+
+(* ---- the controller restarts the dialer whose link was lost ----
+   controller.go flushEstablishedLink: RestartAllRoutines restarts the link
+   dialer keyed (kp, _) iff kp is the lost link's peer, the dialer holds exactly
+   that link, and hasNextLink is false.  HandleLinkLost passes hasNextLink =
+   false: other links to the same peer play no role. *)
+Definition restarts (kp lost_peer : Z) (holds_lost_link has_next : bool) : bool :=
+  Z.eqb kp lost_peer && holds_lost_link && negb has_next.
+
+(* after the dialer's link at ra is lost (HandleLinkLost) while the dialer key
+   stays referenced: the loop runs again against the environment e; [others] =
+   the peer still has other established links *)
+Definition redial_after_loss (others : bool) (s : amap Z) (x a ra : Z) (e : list env)
+  : option dres * amap Z :=
+  if restarts x x true false then dialer_loop (adel ra s) x a ra e else (None, adel ra s).
